@@ -230,26 +230,117 @@ theorem alias_mem_aliasesM : ∀ {fs : List (FieldInfo × Meth)} {fm}, fm ∈ fs
     · exact List.mem_cons_self ..
     · exact List.mem_cons_of_mem _ (alias_mem_aliasesM h')
 
+/-! ### `dependent_required` errors -/
+theorem addDepMissing_cons (m : String × List String) (ms) (errs : List (Key × Err)) :
+    addDepMissing (m :: ms) errs = addDepMissing ms (setChild (.name m.1) (.leaf (.missingRequiredBy m.2)) errs) := by
+  simp [addDepMissing]
+
+theorem mem_addDepMissing_inv : ∀ (ms : List (String × List String)) (errs : List (Key × Err)) (p : Key × Err),
+    p ∈ addDepMissing ms errs → p ∈ errs ∨ ∃ m ∈ ms, p = (Key.name m.1, Err.leaf (.missingRequiredBy m.2))
+  | [], errs, p, h => Or.inl (by simpa [addDepMissing] using h)
+  | m :: ms, errs, p, h => by
+    rw [addDepMissing_cons] at h
+    cases mem_addDepMissing_inv ms _ p h with
+    | inl h1 =>
+      cases mem_setChild_inv h1 with
+      | inl h2 => exact Or.inr ⟨m, List.mem_cons_self .., h2⟩
+      | inr h2 => exact Or.inl h2
+    | inr h1 =>
+      obtain ⟨m', hm', hp⟩ := h1
+      exact Or.inr ⟨m', List.mem_cons_of_mem _ hm', hp⟩
+
+theorem mem_addDepMissing_of_mem : ∀ (ms : List (String × List String)) (errs : List (Key × Err)) (p : Key × Err),
+    p ∈ errs → (∀ m ∈ ms, p.1 ≠ Key.name m.1) → p ∈ addDepMissing ms errs
+  | [], errs, p, h, _ => by simpa [addDepMissing] using h
+  | m :: ms, errs, p, h, hne => by
+    rw [addDepMissing_cons]
+    exact mem_addDepMissing_of_mem ms _ p (mem_setChild_of_mem (hne m (List.mem_cons_self ..)) h)
+      (fun m' hm' => hne m' (List.mem_cons_of_mem _ hm'))
+
+theorem mem_addDepMissing_key : ∀ (ms : List (String × List String)) (errs : List (Key × Err)) (m : String × List String),
+    m ∈ ms → (ms.map (·.1)).Nodup → (Key.name m.1, Err.leaf (.missingRequiredBy m.2)) ∈ addDepMissing ms errs
+  | m0 :: ms, errs, m, h, hn => by
+    rw [addDepMissing_cons]
+    rw [List.map_cons, List.nodup_cons] at hn
+    rcases List.mem_cons.1 h with rfl | h'
+    · apply mem_addDepMissing_of_mem ms _ _ (mem_setChild_self _ _ _)
+      intro m' hm' heq
+      have : m.1 = m'.1 := by simpa using heq
+      exact hn.1 (this ▸ List.mem_map.2 ⟨m', hm', rfl⟩)
+    · exact mem_addDepMissing_key ms _ m h' hn.2
+
+theorem mem_depMissing : ∀ {infos : List FieldInfo} {kvs : List (String × Py)} {m : String × List String},
+    m ∈ depMissing infos kvs → ∃ f ∈ infos, depViolated f kvs = true ∧ m = (f.alias, requiringPresent f kvs)
+  | f :: fs, kvs, m, h => by
+    rw [depMissing] at h
+    split at h
+    · next hv =>
+      rcases List.mem_cons.1 h with rfl | h'
+      · exact ⟨f, List.mem_cons_self .., hv, rfl⟩
+      · obtain ⟨g, hg, hgv, hm⟩ := mem_depMissing h'
+        exact ⟨g, List.mem_cons_of_mem _ hg, hgv, hm⟩
+    · obtain ⟨g, hg, hgv, hm⟩ := mem_depMissing h
+      exact ⟨g, List.mem_cons_of_mem _ hg, hgv, hm⟩
+
+theorem depMissing_mem : ∀ {infos : List FieldInfo} {kvs : List (String × Py)} {f : FieldInfo},
+    f ∈ infos → depViolated f kvs = true → (f.alias, requiringPresent f kvs) ∈ depMissing infos kvs
+  | g :: fs, kvs, f, h, hv => by
+    rw [depMissing]
+    rcases List.mem_cons.1 h with rfl | h'
+    · rw [if_pos hv]; exact List.mem_cons_self ..
+    · split
+      · exact List.mem_cons_of_mem _ (depMissing_mem h' hv)
+      · exact depMissing_mem h' hv
+
+theorem depMissing_keys_sublist : ∀ (infos : List FieldInfo) (kvs : List (String × Py)),
+    ((depMissing infos kvs).map (·.1)).Sublist (infos.map (·.alias))
+  | [], _ => List.Sublist.slnil
+  | f :: fs, kvs => by
+    rw [depMissing]
+    split
+    · exact (depMissing_keys_sublist fs kvs).cons₂ _
+    · exact (depMissing_keys_sublist fs kvs).cons _
+
+theorem infosM_aliases : ∀ (fs : List (FieldInfo × Meth)), (infosM fs).map (·.alias) = aliasesM fs
+  | [] => rfl
+  | (f, m) :: fs => by rw [infosM, aliasesM_cons, List.map_cons, infosM_aliases fs]
+
+theorem eq_of_alias_eq : ∀ {fs : List (FieldInfo × Meth)}, (aliasesM fs).Nodup → ∀ {a b : FieldInfo × Meth}, a ∈ fs → b ∈ fs →
+    a.1.alias = b.1.alias → a = b
+  | [], _, _, _, ha, _, _ => by cases ha
+  | (f, m) :: fs, hn, a, b, ha, hb, hab => by
+    rw [aliasesM_cons, List.nodup_cons] at hn
+    rcases List.mem_cons.1 ha with ha0 | ha'
+    · rcases List.mem_cons.1 hb with hb0 | hb'
+      · rw [ha0, hb0]
+      · exfalso
+        have h1 := alias_mem_aliasesM hb'
+        rw [← hab, ha0] at h1
+        exact hn.1 h1
+    · rcases List.mem_cons.1 hb with hb0 | hb'
+      · exfalso
+        have h1 := alias_mem_aliasesM ha'
+        rw [hab, hb0] at h1
+        exact hn.1 h1
+      · exact eq_of_alias_eq hn.2 ha' hb' hab
+
 theorem finishObj_invalid {ci infos own ap aliases} {acc : FAcc} {kvs : List (String × Py)} {e : Err}
     (hc : acc.crash = Option.none) (h : finishObj ci infos own ap aliases acc kvs = .invalid e) :
-    e = .mk own (if (kvs.length != acc.count && !ap) = true
-                 then addUnexpected (unexpectedKeys aliases kvs) acc.errs else acc.errs) := by
+    e = .mk own (addDepMissing (depMissing infos kvs) (if (kvs.length != acc.count && !ap) = true
+                 then addUnexpected (unexpectedKeys aliases kvs) acc.errs else acc.errs)) := by
   unfold finishObj at h
   rw [hc] at h
   simp only at h
-  by_cases hcond : (kvs.length != acc.count && !ap) = true
-  · simp only [hcond, if_true] at h ⊢
-    by_cases hE : ((addUnexpected (unexpectedKeys aliases kvs) acc.errs).isEmpty && own.isEmpty) = true
-    · rw [if_pos hE] at h; cases h
-    · rw [if_neg hE] at h; cases h; rfl
-  · simp only [hcond, if_false, Bool.false_eq_true] at h ⊢
-    by_cases hE : (acc.errs.isEmpty && own.isEmpty) = true
-    · rw [if_pos hE] at h; cases h
-    · rw [if_neg hE] at h; cases h; rfl
+  generalize hE : (addDepMissing (depMissing infos kvs) (if (kvs.length != acc.count && !ap) = true
+                 then addUnexpected (unexpectedKeys aliases kvs) acc.errs else acc.errs)) = errs at h ⊢
+  by_cases hb : (errs.isEmpty && own.isEmpty) = true
+  · rw [if_pos hb] at h; cases h
+  · rw [if_neg hb] at h; cases h; rfl
 
 /-- **C02 for `ObjectMethod`, one level.** When an object is rejected, its own messages are the
     property-count violations, and its children are exactly: the violation of every declared field that
-    has one (its value's own error under its alias, or `missing`), and — unless additional properties are
+    has one (its value's own error under its alias, or `missing`), `missing property (required by [...])` under every
+    absent field that a present field requires (`dependent_required`), and — unless additional properties are
     allowed — `unexpected property` under every undeclared key. Nothing else, nothing missing. -/
 theorem C02_object_level {ci : ClassInfo} {ctor : Ctor} {c : Constraints} {ap : Bool}
     {fs : List (FieldInfo × Meth)} {kvs : List (String × Py)} {e : Err}
@@ -259,35 +350,63 @@ theorem C02_object_level {ci : ClassInfo} {ctor : Ctor} {c : Constraints} {ap : 
     e.msgs = c.dictErrors kvs.length ∧
     (∀ p ∈ e.children,
         (∃ fm ∈ fs, p.1 = .name fm.1.alias ∧ fieldViolation fm.1 fm.2 kvs = some p.2) ∨
-        (ap = false ∧ ∃ k ∈ unexpectedKeys (aliasesM fs) kvs, p = (Key.name k, Err.leaf .unexpected))) ∧
+        (ap = false ∧ ∃ k ∈ unexpectedKeys (aliasesM fs) kvs, p = (Key.name k, Err.leaf .unexpected)) ∨
+        (∃ f ∈ infosM fs, depViolated f kvs = true ∧
+            p = (Key.name f.alias, Err.leaf (.missingRequiredBy (requiringPresent f kvs))))) ∧
     (∀ fm ∈ fs, ∀ e', fieldViolation fm.1 fm.2 kvs = some e' → (Key.name fm.1.alias, e') ∈ e.children) ∧
-    (ap = false → ∀ k ∈ unexpectedKeys (aliasesM fs) kvs, (Key.name k, Err.leaf .unexpected) ∈ e.children) := by
+    (ap = false → ∀ k ∈ unexpectedKeys (aliasesM fs) kvs, (Key.name k, Err.leaf .unexpected) ∈ e.children) ∧
+    (∀ f ∈ infosM fs, depViolated f kvs = true →
+        (Key.name f.alias, Err.leaf (.missingRequiredBy (requiringPresent f kvs))) ∈ e.children) := by
   rw [run] at h
   simp only [onDict] at h
   have he := finishObj_invalid hc h
   subst he
   have hcount := (runFields_clean hnf true kvs).2 hc
-  refine ⟨rfl, ?_, ?_, ?_⟩
+  -- the keys of the dependent-required errors are aliases of absent, optional fields
+  have hdepkey : ∀ m ∈ depMissing (infosM fs) kvs, m.1 ∈ aliasesM fs ∧
+      ∀ fm ∈ fs, fm.1.alias = m.1 → fieldViolation fm.1 fm.2 kvs = Option.none := by
+    intro m hm
+    obtain ⟨f, hf, hv, rfl⟩ := mem_depMissing hm
+    obtain ⟨fm', hfm', rfl⟩ := mem_infosM hf
+    refine ⟨alias_mem_aliasesM hfm', fun fm hfm heq => ?_⟩
+    have : fm = fm' := eq_of_alias_eq ha hfm hfm' heq
+    subst this
+    unfold depViolated at hv
+    simp only [Bool.and_eq_true, Option.isNone_iff_eq_none, Bool.not_eq_true'] at hv
+    unfold fieldViolation
+    rw [hv.1.1]; simp [hv.1.2]
+  refine ⟨rfl, ?_, ?_, ?_, ?_⟩
   · intro p hp
     simp only [Err.children] at hp
-    split at hp
-    · next hcond =>
-      cases mem_addUnexpected_inv _ _ p hp with
-      | inl h1 => exact Or.inl (runFields_sound hnf true kvs p h1)
-      | inr h1 =>
-        have hap : ap = false := by
-          simp only [Bool.and_eq_true, Bool.not_eq_true'] at hcond; exact hcond.2
-        exact Or.inr ⟨hap, h1⟩
-    · exact Or.inl (runFields_sound hnf true kvs p hp)
+    cases mem_addDepMissing_inv _ _ p hp with
+    | inr hd =>
+      obtain ⟨m, hm, rfl⟩ := hd
+      obtain ⟨f, hf, hv, rfl⟩ := mem_depMissing hm
+      exact Or.inr (Or.inr ⟨f, hf, hv, rfl⟩)
+    | inl hp =>
+      split at hp
+      · next hcond =>
+        cases mem_addUnexpected_inv _ _ p hp with
+        | inl h1 => exact Or.inl (runFields_sound hnf true kvs p h1)
+        | inr h1 =>
+          have hap : ap = false := by
+            simp only [Bool.and_eq_true, Bool.not_eq_true'] at hcond; exact hcond.2
+          exact Or.inr (Or.inl ⟨hap, h1⟩)
+      · exact Or.inl (runFields_sound hnf true kvs p hp)
   · intro fm hfm e' hv
     have hmem := runFields_complete hnf ha true kvs hc fm hfm e' hv
     simp only [Err.children]
-    split
-    · apply mem_addUnexpected_of_mem _ _ _ hmem
-      intro k hk' heq
-      have : fm.1.alias = k := by simpa using heq
-      exact mem_unexpectedKeys hk' (this ▸ alias_mem_aliasesM hfm)
-    · exact hmem
+    apply mem_addDepMissing_of_mem
+    · split
+      · apply mem_addUnexpected_of_mem _ _ _ hmem
+        intro k hk' heq
+        have : fm.1.alias = k := by simpa using heq
+        exact mem_unexpectedKeys hk' (this ▸ alias_mem_aliasesM hfm)
+      · exact hmem
+    · intro m hm heq
+      have hal : fm.1.alias = m.1 := by simpa using heq
+      have := (hdepkey m hm).2 fm hfm hal
+      rw [hv] at this; cases this
   · intro hap k hk'
     simp only [Err.children]
     have hne : unexpectedKeys (aliasesM fs) kvs ≠ [] := fun h0 => by rw [h0] at hk'; cases hk'
@@ -296,6 +415,14 @@ theorem C02_object_level {ci : ClassInfo} {ctor : Ctor} {c : Constraints} {ap : 
     have hcond : (kvs.length != (runFields true fs kvs).count && !ap) = true := by
       simp [hap, hlen]
     rw [if_pos hcond]
-    exact mem_addUnexpected_key _ _ k (Or.inl hk')
+    apply mem_addDepMissing_of_mem _ _ _ (mem_addUnexpected_key _ _ k (Or.inl hk'))
+    intro m hm heq
+    have hkm : k = m.1 := by simpa using heq
+    exact mem_unexpectedKeys hk' (hkm ▸ (hdepkey m hm).1)
+  · intro f hf hv
+    simp only [Err.children]
+    have hn : ((depMissing (infosM fs) kvs).map (·.1)).Nodup :=
+      (depMissing_keys_sublist (infosM fs) kvs).nodup (infosM_aliases fs ▸ ha)
+    exact mem_addDepMissing_key _ _ (f.alias, requiringPresent f kvs) (depMissing_mem hf hv) hn
 
 end Api
